@@ -230,6 +230,7 @@ def check_table(paths, atomise, spec, result_of, atoms, dont_care=None):
     rows = []
     for p in paths:
         lits = {}
+        preds = []
         bad = False
         for (a, tr) in p.literals:
             r = atomise(a, tr)
@@ -238,6 +239,9 @@ def check_table(paths, atomise, spec, result_of, atoms, dont_care=None):
             if r is None:
                 problems.append("unrecognised-guard: %s%s on path [%s]" % ("" if tr is True else "not " if tr is False else "", fmt_atom(a) + ("" if tr in (True, False) else " %s" % (tr,)), p.describe()))
                 bad = True
+                continue
+            if r[0] == "pred":
+                preds.append(r[1])    # a constraint that is not a single literal, e.g. not (a and b): a predicate over the assignment
                 continue
             name, val = r
             if name in lits and lits[name] != val:
@@ -248,14 +252,14 @@ def check_table(paths, atomise, spec, result_of, atoms, dont_care=None):
             continue
         if bad:
             continue
-        rows.append((lits, p))
+        rows.append((lits, p, preds))
     if problems:
         return problems
     for values in itertools.product([False, True], repeat=len(atoms)):
         assign = dict(zip(atoms, values))
         if dont_care and dont_care(assign):
             continue
-        matching = [(l, p) for (l, p) in rows if all(assign[k] == v for k, v in l.items())]
+        matching = [(l, p) for (l, p, prs) in rows if all(assign[k] == v for k, v in l.items()) and all(f(assign) for f in prs)]
         exp = spec(assign)
         if not matching:
             problems.append("no path covers %s (expected %s)" % (assign, exp))
